@@ -180,4 +180,6 @@ def run(chk, ctx):
     round3.start_resets_record(chk, ctx)
     from . import c15
     c15.r3(chk, ctx)                         # the input reported at the end of an execution / of a child is the input it was started with
+    from . import round4
+    round4.execution_input_is_a_copy(chk, ctx)
     chk.assume("json.dumps is deterministic for a given object; the topic producer delivers what it is given (C19)")
